@@ -340,6 +340,7 @@ pub fn all() -> Vec<CheckDef> {
                 Family { enumerate: None, variant: "", name: "ebr-exit", strategy: |t| ebrworld::free(ebrworld::EW_EXIT, 4, t.pick(16, 24), t.pick(8, 14)), cases: |t| t.pick(30_000, 300_000) },
                 Family { enumerate: None, variant: "", name: "ebr-free", strategy: |t| ebrworld::free(ebrworld::EW_DEFAULT, 4, t.pick(24, 36), t.pick(10, 17)), cases: |t| t.pick(16_000, 160_000) },
                 Family { enumerate: None, variant: "", name: "private-collector", strategy: |_| ebrworld::private(ebrworld::EW_EXIT, 50), cases: |t| t.pick(16_000, 160_000) },
+                Family { enumerate: None, variant: "", name: "E3-scan-unlinks-exited-participants-in-stages", strategy: |_| ebrworld::e3(), cases: |t| t.pick(3_000, 30_000) },
             ],
             exec: ebrworld::exec,
             rule: "the same worlds as C13, biased to deferral bursts (bag fill levels 0..130) and threads that exit with garbage pending at generated points; closures carry a checksum pattern and check their own alignment. Oracle: every deferred function runs at most once at any time, with its captured data intact, and all of them have run within 64 + deferred collection rounds by the surviving thread after the others exited (for private collectors: once every handle and the collector are dropped). Non-trivial = at least one function was executed by another thread after the deferring thread had exited (private: executed at collector drop); distinct = distinct hash of the case",
